@@ -213,12 +213,33 @@ def observe(cfg, want):
         tol_c = max(lift.TOL, 2e-15 * cond)
         q_c = max(64, min(lift.QMAX, int((1e-6 / (0.61 * tol_c)) ** 0.5)))     # coincidental lift < 1e-6
 
-        def lift_sol(arr):
+        far = obs.setdefault("_far", {})
+
+        def lift_sol(arr, target=None, name=None):
+            """lift a solver result; with `target` (the exact field the result must equal) also record whether the
+            result is FAR from it (beyond anything rounding can explain at the admitted condition numbers): an
+            unliftable value then decides the clause (failing), a near one leaves it undecided"""
+            if target is not None:
+                a_ = np.asarray(arr, dtype=float)
+                t_ = np.asarray(target, dtype=float)
+                if a_.shape != t_.shape:
+                    a_ = interior(a_) if a_.ndim == t_.ndim and a_.size > t_.size else a_
+                    t_ = interior(t_) if t_.size > a_.size else t_
+                mask = live_mask(a_.shape) if a_.shape == tuple(full) else np.ones(a_.shape, dtype=bool)
+                dev = np.abs(a_ - t_)[mask] if a_.shape == t_.shape else np.array([np.inf])
+                ref = np.maximum(1.0, np.abs(t_))[mask] if a_.shape == t_.shape else np.array([1.0])
+                far[name] = bool(far.get(name, False) or not np.all(np.isfinite(dev)) or np.any(dev > 1e-6 * ref))
             return lift.lift_array(arr, tol=tol_c, qmax=q_c)[0]
+
+        def live_mask(shape):
+            """interior and face-ghost cells (the inert edge / corner cells carry no information)"""
+            idx = np.indices(shape)
+            deg = sum(((idx[a_] == 0) | (idx[a_] == shape[a_] - 1)).astype(int) for a_ in range(len(shape)))
+            return deg <= 1
         ids_before = id(v1)
         ret = P.solvePDE(v1, t1)
         obs["flags"]["same_object"] = bool(ret is v1 and id(ret) == ids_before)
-        obs["r_solve"] = lift_sol(np.asarray(v1._value))
+        obs["r_solve"] = lift_sol(np.asarray(v1._value), xs, "r_solve")
         # the same system through solveMatrixPDE
         vm = P.solveMatrixPDE(c.m, Mh, Rh)
         obs["r_matrix"] = lift_sol(np.asarray(vm.value))
@@ -239,7 +260,7 @@ def observe(cfg, want):
         else:       # the solver that was passed in was never called: nothing to compare, the clause fails
             obs["Mext"] = opsdrive.Entries()
             obs["Rext"] = opsdrive.vec_nested(np.zeros(int(np.prod(full))), c.dims)
-        obs["r_ext"] = lift_sol(np.asarray(v_ext.value))
+        obs["r_ext"] = lift_sol(np.asarray(v_ext.value), interior(xs2), "r_ext")
         # algebraically identical presentations of the term list
         variants = {}
         tr = P.transientTerm(P.CellVariable(c.m, old.copy(), bc_with(cfg, "c", c.m, d)), dt, alpha)
@@ -254,7 +275,7 @@ def observe(cfg, want):
         for name, mk in lists.items():
             vv = P.CellVariable(c.m, old.copy(), bc_with(cfg, "c", c.m, d))
             P.solvePDE(vv, mk())
-            variants[name] = lift_sol(np.asarray(vv._value))
+            variants[name] = lift_sol(np.asarray(vv._value), xs, "r_variants")
         obs["r_variants"] = variants
         # superposition: data of target 1 + data of target 2 -> target 1 + target 2
         bc12 = add_bcs(cfg, ["c", "c2"], c.m, d)
@@ -278,7 +299,7 @@ def observe(cfg, want):
                     side.c[...] = newc         # slice assignment into the tracked array
         # (no assignment to .value in between: only the boundary data changed)
         P.solvePDE(v_h, terms_for(v_h, derive_gamma(xs2, interior(xs))))
-        obs["r_history"] = lift_sol(np.asarray(v_h._value))
+        obs["r_history"] = lift_sol(np.asarray(v_h._value), xs2, "r_history")
         # multi-step history with a boundary-KIND switch: one side is made periodic, a step is taken, the side
         # is switched back (nothing else is touched), and the next step must be the step of the configured
         # (non-periodic) problem again: target x* from the state the first step left behind
@@ -295,7 +316,7 @@ def observe(cfg, want):
                 if np.all(np.isfinite(mid)) and np.max(np.abs(mid)) < 1e6:
                     side.periodic = False
                     P.solvePDE(v_p, terms_for(v_p, derive_gamma(xs, mid)))
-                    obs["r_history_per"] = lift_sol(np.asarray(v_p._value))
+                    obs["r_history_per"] = lift_sol(np.asarray(v_p._value), xs, "r_history_per")
             except Exception:       # noqa: BLE001  (a singular intermediate periodic problem: clause not evaluated)
                 pass
         # pieces needed by the residual clause (C12), all lifted from the code
@@ -305,7 +326,7 @@ def observe(cfg, want):
             gs = interior((A @ xs.ravel()).reshape(full))
             vs = P.CellVariable(c.m, interior(xs).copy(), bc_with(cfg, "c", c.m, d))
             P.solvePDE(vs, [P.transientTerm(vs, dt, alpha)] + list(sp) + [P.constantSourceTerm(P.CellVariable(c.m, gs))])
-            obs["r_fixed"] = lift_sol(np.asarray(vs._value))
+            obs["r_fixed"] = lift_sol(np.asarray(vs._value), xs, "r_fixed")
         # limits (floating point, supporting only): dt -> infinity returns the steady solution, dt -> 0 the
         # old field, implicit and explicit steps agree to O(dt^2)
         lim = {"checked": False}
@@ -357,7 +378,7 @@ def observe(cfg, want):
         try:
             P.solvePDE(vex, terms_for(vex, derive_gamma(xs, interior(np.asarray(vex._value)))))
             obs["flags"]["explicit_then_implicit"] = "ok"
-            obs["r_after_explicit"] = lift_sol(np.asarray(vex._value))
+            obs["r_after_explicit"] = lift_sol(np.asarray(vex._value), xs, "r_after_explicit")
         except Exception as ex:      # noqa: BLE001
             obs["flags"]["explicit_then_implicit"] = type(ex).__name__
             obs["r_after_explicit"] = obs["r_explicit"]
